@@ -67,7 +67,7 @@ Dom(d, s) ==
     [] n = "la"      -> IF o THEN (IF ot THEN {0, 8, 16, 32, 64} ELSE {0, 16, 64}) ELSE IF q THEN {0, 64} ELSE IF t THEN {0, 8, 32}
                         ELSE {0, 1, 4, 8, 16, 32, 64}
     [] n = "cs"      -> IF o THEN {32} ELSE IF q THEN {0, 32} ELSE IF t THEN {0, 40} ELSE {0, 8, 32, 100}
-    [] n = "ca"      -> IF o THEN (IF ot THEN {0, 16, 32, 64} ELSE {0, 32}) ELSE IF q THEN {0} ELSE IF t THEN {0, 32} ELSE {0, 16, 32, 64}
+    [] n = "ca"      -> IF o THEN (IF ot THEN {0, 16, 32, 64} ELSE {0, 32}) ELSE IF q \/ t THEN {0} ELSE {0, 16, 32, 64}
     [] n = "fp"      -> {0, 1}
     [] n = "avx"     -> IF IsA64(s) \/ o THEN {0} ELSE IF q THEN {0, 1} ELSE {0, 1, 2}
     [] n = "cleanup" -> IF IsA64(s) \/ q \/ t \/ o THEN {<<0, 0>>}
